@@ -101,6 +101,10 @@ Check ==
     PredsAgree     |-> Done => /\ PredsWellFormed
                                /\ \A i \in 1..Len(T.preds) : LET p == ById(T.preds[i].ids, T.preds[i].s) IN
                                      \A r \in Rows : Within(p[r], SamePred[r]),
+    \* a second model with the default (stateful) StandardScaler: same PSMs, permuted feature columns, reloaded model
+    ScaledPredsAgree |-> \A i \in 1..Len(T.preds_scaled) : LET a == T.preds_scaled[1]  b == T.preds_scaled[i] IN
+                            /\ a.ok /\ b.ok /\ Len(a.s) = Len(b.s)
+                            /\ \A k \in 1..Len(a.s) : (IF a.s[k] > b.s[k] THEN a.s[k] - b.s[k] ELSE b.s[k] - a.s[k]) <= 100,
     VariantsAgree  |-> /\ T.ref_status = "abort" => ~Done
                        /\ T.ref_status = "done" =>
                             /\ Done /\ PredsWellFormed /\ IsRowPerm(T.ref_ids)
